@@ -651,6 +651,52 @@ def mpz_negabs (isAbs : Bool) (w u : Nat) (s : St) : R St := do
 def mpz_neg := mpz_negabs false
 def mpz_abs := mpz_negabs true
 
+/-! ## mpz_sqrtrem -/
+
+/-- mpn_sqrtrem (sp, rp, np, nn): mpn/generic/sqrtrem.c:298-301 `np[nn-1] != 0`, `MPN_SAME_OR_SEPARATE_P (np, rp, nn)`,
+    S overlaps neither R nor N.  Stores the (nn+1)/2 root limbs and the remainder limbs; returns the remainder size. -/
+def mpn_sqrtrem (sp rp np nn : Nat) (s : St) : R (Nat × St) := do
+  if sp = np ∨ sp = rp then throw "ub:mpn_sqrtrem operands overlap"
+  let n ← s.load np nn
+  if ¬ 1 ≤ nn then throw "ub:mpn_sqrtrem sizes"
+  if n.getD (nn - 1) 0 = 0 then throw "ub:mpn_sqrtrem operand not normalised"
+  let r := Nat.sqrt (val n)
+  let s ← s.store sp (toLimbs ((nn + 1) / 2) r)
+  let rem := val n - r * r
+  let s ← s.store rp (toLimbs (sizeNat rem) rem)
+  pure (sizeNat rem, s)
+
+/-- `(*__gmp_free_func) (PTR (v), …); ALLOC (v) = n; PTR (v) = (*__gmp_allocate_func) (n limbs)` (sqrtrem.c:64-69):
+    a new block with junk contents, SIZ untouched -/
+def St.freshBlock (s : St) (v n : Nat) : St :=
+  let r := (s.free (s.ptr v)).malloc (List.replicate n junk)
+  r.2.setVar v { alloc := n, size := s.size v, ptr := r.1 }
+
+/-- mpz_sqrtrem (root, rem, op): mpz/sqrtrem.c:37-98.  root ≠ rem (manual). -/
+def sqrtremV (V : Variant) (root rem op : Nat) (s : St) : R St := do
+  let op_size := s.size op                                    -- sqrtrem.c:38
+  if op_size < 0 then throw "sqrtneg"                         -- :41-42
+  if op_size = 0 then pure ((s.setSize root 0).setSize rem 0) -- :43-45
+  else
+    let n := op_size.natAbs
+    let s := s.mpzRealloc rem n                               -- :48-49
+    let root_size := (n + 1) / 2                              -- :52
+    let root_ptr := s.ptr root                                -- :54
+    let op_ptr := s.ptr op                                    -- :55
+    -- :57-83.  (`root_ptr == op_ptr` with `ALLOC (root) < root_size` cannot happen: ALLOC ≥ op_size ≥ root_size,
+    -- so the `free_me` arm :59-63 is dead code and the old block is always released at once.)
+    let grow : Bool := s.alloc root < root_size               -- :57
+    let s := if grow then s.freshBlock root root_size else s  -- :64-69
+    let root_ptr := if grow then s.ptr root else root_ptr
+    let c : Bool := !grow ∧ V.copyNum ∧ root_ptr = op_ptr      -- :74
+    let (op_ptr, s) ← s.copyIf c op_ptr n                     -- :77-80 "Make OP not overlap with ROOT"
+    let r ← mpn_sqrtrem root_ptr (s.ptr rem) op_ptr n s       -- :86 (rem->_mp_d fetched here)
+    let s := r.2.setSize root root_size                       -- :88
+    let s := s.setSize rem r.1                                -- :93 "Write remainder size last"
+    pure (if c then s.free op_ptr else s)                     -- :97 TMP_FREE
+
+def sqrtrem := sqrtremV .c
+
 /-! ## building a state from values (driver, examples) -/
 
 /-- variables `0 … k-1` holding `zs` in exact-size blocks (the harness's `tok_mpz`) -/
